@@ -186,7 +186,15 @@ func registerKyberDKG(P *Program) {
 		}
 		in.opq++
 		g.id = in.opq
-		g.t = in.concreteInt(args[3].(*Term), "dkg threshold")
+		// dkg.go NewDistKeyHandler: threshold 0 means vss.MinimumT(n) = (n+1)/2; vss.NewDealer refuses t outside [2, n]
+		tT := args[3].(*Term)
+		if in.branch(nil, nil, in.ts.Eq(tT, in.ts.BV(64, 0))) {
+			tT = in.ts.BV(64, uint64((g.n+1)/2))
+		}
+		if !in.branch(nil, nil, in.ts.And(in.ts.BvSle(in.ts.BV(64, 2), tT), in.ts.BvSle(tT, in.ts.BV(64, uint64(g.n))))) {
+			return Tuple{Ptr(nil), in.newError(in.ts.Str("dealer: t invalid"))}
+		}
+		g.t = int(in.forkValues(tT, 16))
 		g.reader = in.ts.Str("<nil reader>")
 		if rd, ok := args[4].(Iface); ok && rd.T != nil {
 			if p, ok := rd.V.(Ptr); ok && p != nil {
@@ -219,7 +227,10 @@ func registerKyberDKG(P *Program) {
 		}
 		cipher := (*p).(Struct)[3].(SliceV)
 		if cipher.Blob == nil || cipher.Blob.Node == nil || cipher.Blob.Node.K != JObj {
-			panic(unsupported("kyber deal stub: EncryptedDeal.Cipher is not a plaintext descriptor"))
+			// not something an honest dealer's Deals() produced: the dealer signature over it verifies or not (unknown),
+			// and it does not decrypt to a deal
+			in.opq++
+			return &dealDesc{ok: in.ts.FreshSym(fmt.Sprintf("schnorr.verifies#%d", in.opq), BoolSort), decOK: in.ts.False(), status: in.ts.False()}
 		}
 		d := &dealDesc{}
 		n := cipher.Blob.Node
